@@ -115,7 +115,8 @@ def _inlinable_def(fn: ast.FunctionDef) -> bool:
     if _has(fn, (ast.Yield, ast.YieldFrom, ast.Await, ast.Global, ast.Nonlocal)):
         return False
     body = [s for s in fn.body if not (isinstance(s, ast.Expr) and isinstance(s.value, ast.Constant) and isinstance(s.value.value, str))]
-    if sum(1 for _ in ast.walk(fn) if isinstance(_, ast.stmt)) > MAX_STMTS:
+    # (the size a definition had before anything was expanded inside it)
+    if _ORIG_SIZE.get(id(fn), sum(1 for _ in ast.walk(fn) if isinstance(_, ast.stmt))) > MAX_STMTS:
         return False
     # `break`/`continue` at the top level of the callee would be captured by the wrapper loop: they cannot occur
     # outside a loop in valid code, so nothing to check; but a `return` inside a `finally:` is not handled
@@ -139,6 +140,10 @@ def _inlinable_def(fn: ast.FunctionDef) -> bool:
 
 class _Counter:
     n = 0
+
+
+_ORIG_SIZE: Dict[int, int] = {}
+_INLINED_DEFS: Set[int] = set()      # id() of every definition that was expanded at a call site in this run
 
 
 def _bind_args(callee: ast.FunctionDef, call: ast.Call, skip_self: bool, prefix: str):
@@ -197,13 +202,25 @@ def _expand_call(callee: ast.FunctionDef, call: ast.Call, skip_self: bool, self_
     binding = _bind_args(callee, call, skip_self, prefix)
     if binding is None:
         return None
+    _INLINED_DEFS.add(id(callee))
     star = [(p[1:], v) for p, v in binding if p.startswith("*")]
     binding = [(p, v) for p, v in binding if not p.startswith("*")]
+    # an ordinary parameter bound to a tuple / list display that the callee only unpacks into calls (`check(*args)` with
+    # `args=(config, field)`): treated like the callee's own `*args`
+    for p, v in list(binding):
+        if isinstance(v, (ast.Tuple, ast.List)) and not any(isinstance(e_, ast.Starred) for e_ in v.elts) and p not in _assigned_names(callee):
+            uses = [n for n in ast.walk(callee) if isinstance(n, ast.Name) and n.id == p]
+            starred = [n.value for n in ast.walk(callee) if isinstance(n, ast.Starred) and isinstance(n.value, ast.Name) and n.value.id == p]
+            in_calls = [x.value for c in ast.walk(callee) if isinstance(c, ast.Call) for x in c.args if isinstance(x, ast.Starred)]
+            if uses and len(uses) == len(starred) and all(any(s_ is ic for ic in in_calls) for s_ in starred):
+                star.append((p, list(v.elts)))
+                binding.remove((p, v))
     # a parameter that is only *called* (a callback) and bound to a plain name / attribute chain is substituted, so the
     # call site reads `self._validate_field(...)` again instead of `check(...)`
     reassigned = _assigned_names(callee)
     subst: Dict[str, ast.expr] = {}
     folded_switch = False
+    never_none: Set[str] = set()
     for p, v in binding:
         called = any(isinstance(c, ast.Call) and isinstance(c.func, ast.Name) and c.func.id == p for c in ast.walk(callee))
         if called and p not in reassigned and _plain_chain(v):
@@ -211,6 +228,13 @@ def _expand_call(callee: ast.FunctionDef, call: ast.Call, skip_self: bool, self_
         elif isinstance(v, ast.Constant) and isinstance(v.value, bool) and p not in reassigned:
             subst[p] = v            # a mode switch given as a literal: the body is specialised for it (folded below)
             folded_switch = True
+        elif isinstance(v, ast.Constant) and v.value is None and p not in reassigned and any(
+                isinstance(c, ast.Compare) and len(c.ops) == 1 and isinstance(c.ops[0], (ast.Is, ast.IsNot)) and isinstance(c.left, ast.Name)
+                and c.left.id == p and isinstance(c.comparators[0], ast.Constant) and c.comparators[0].value is None for c in ast.walk(callee)):
+            subst[p] = v            # an optional argument left out / given as None and tested with `is None`: same
+            folded_switch = True
+        elif isinstance(v, ast.Name) and v.id == "self" and p not in reassigned:
+            never_none.add(p)       # the caller's own object is handed in: `p is None` is decided
     binding = [(p, v) for p, v in binding if p not in subst]
     locals_ = _assigned_names(callee) | {p for p, _ in binding}
     mapping = {nm: prefix + nm for nm in locals_}
@@ -264,6 +288,20 @@ def _expand_call(callee: ast.FunctionDef, call: ast.Call, skip_self: bool, self_
             new_body.extend(r)
         elif r is not None:
             new_body.append(r)
+    if never_none:
+        nn = {mapping.get(p, p) for p in never_none}
+
+        class _NN(ast.NodeTransformer):
+            def visit_Compare(self, node):
+                self.generic_visit(node)
+                if len(node.ops) == 1 and isinstance(node.ops[0], (ast.Is, ast.IsNot)) and isinstance(node.left, ast.Name) and node.left.id in nn \
+                        and isinstance(node.comparators[0], ast.Constant) and node.comparators[0].value is None:
+                    return ast.copy_location(ast.Constant(value=isinstance(node.ops[0], ast.IsNot)), node)
+                return node
+        before_ = ast.dump(ast.Module(body=new_body, type_ignores=[]))
+        new_body = [_NN().visit(b) for b in new_body]
+        if ast.dump(ast.Module(body=new_body, type_ignores=[])) != before_:
+            folded_switch = True
     if folded_switch:
         new_body = _fold_constants(new_body)
     last = callee.body[-1] if callee.body else call
@@ -318,6 +356,17 @@ def _single_return_expr(fn: ast.FunctionDef) -> Optional[ast.expr]:
     body = [st for st in fn.body if not (isinstance(st, ast.Expr) and isinstance(st.value, ast.Constant) and isinstance(st.value.value, str))]
     if len(body) == 1 and isinstance(body[0], ast.Return) and body[0].value is not None:
         return body[0].value
+    # a generator that maps / filters one iterable -- `for x in it: [if c:] yield f(x)` -- is the generator expression
+    # `(f(x) for x in it if c)`
+    if len(body) == 1 and isinstance(body[0], ast.For) and not body[0].orelse and not fn.decorator_list:
+        inner, conds = body[0].body, []
+        while len(inner) == 1 and isinstance(inner[0], ast.If) and not inner[0].orelse:
+            conds.append(inner[0].test)
+            inner = inner[0].body
+        if len(inner) == 1 and isinstance(inner[0], ast.Expr) and isinstance(inner[0].value, ast.Yield) and inner[0].value.value is not None \
+                and sum(1 for n in ast.walk(fn) if isinstance(n, (ast.Yield, ast.YieldFrom))) == 1:
+            ge = ast.GeneratorExp(elt=inner[0].value.value, generators=[ast.comprehension(target=body[0].target, iter=body[0].iter, ifs=conds, is_async=0)])
+            return ast.copy_location(ge, body[0])
     # a chain of guard clauses -- `if c1: return a` / `if c2: return b` / `return z` -- is the expression
     # `a if c1 else (b if c2 else z)`
     def chain(stmts):
@@ -347,13 +396,18 @@ def _simple_arg(e: ast.expr) -> bool:
 class _ExprInliner(ast.NodeTransformer):
     """replace calls of single-`return <expr>` helpers by the expression, everywhere (comprehensions included)"""
 
-    def __init__(self, resolve):
+    def __init__(self, resolve, resolve_gen=None):
         self.resolve = resolve
+        self.resolve_gen = resolve_gen
         self.count = 0
 
     def visit_Call(self, node: ast.Call):
         self.generic_visit(node)
         r = self.resolve(node)
+        if r is None and self.resolve_gen is not None:
+            r = self.resolve_gen(node)      # a new map/filter generator handed to a consumer: written as a generator expression
+            if r is not None and not isinstance(_single_return_expr(r[0]), ast.GeneratorExp):
+                r = None
         if r is None:
             return node
         callee, skip_self, self_expr = r
@@ -383,6 +437,39 @@ class _ExprInliner(ast.NodeTransformer):
             def visit_Name(self, n):
                 if n.id in mapping and isinstance(n.ctx, ast.Load):
                     return ast.copy_location(copy.deepcopy(mapping[n.id]), n)
+                return n
+        new = Sub().visit(copy.deepcopy(expr))
+        ast.copy_location(new, node)
+        ast.fix_missing_locations(new)
+        self.count += 1
+        return new
+
+
+class _PropertyInliner(ast.NodeTransformer):
+    """`self._holds_configs` where `_holds_configs` is a *new* read-only property whose body is one return expression:
+    the expression is put in place of the attribute load (with the property's `self` replaced by the object it is read from)."""
+
+    def __init__(self, resolve_prop):
+        self.resolve_prop = resolve_prop
+        self.count = 0
+
+    def visit_Attribute(self, node: ast.Attribute):
+        self.generic_visit(node)
+        if not isinstance(node.ctx, ast.Load) or not _plain_chain(node.value):
+            return node
+        d = self.resolve_prop(node)
+        if d is None:
+            return node
+        expr = _single_return_expr(d)
+        if expr is None or not d.args.args:
+            return node
+        sname = d.args.args[0].arg
+        recv = node.value
+
+        class Sub(ast.NodeTransformer):
+            def visit_Name(self, n):
+                if n.id == sname and isinstance(n.ctx, ast.Load):
+                    return ast.copy_location(copy.deepcopy(recv), n)
                 return n
         new = Sub().visit(copy.deepcopy(expr))
         ast.copy_location(new, node)
@@ -791,6 +878,9 @@ def _fold_constants(stmts: List[ast.stmt]) -> List[ast.stmt]:
                     and isinstance(node.ops[0], (ast.Eq, ast.NotEq)) and type(node.left.value) is type(node.comparators[0].value):
                 eq = node.left.value == node.comparators[0].value
                 return ast.copy_location(ast.Constant(value=eq if isinstance(node.ops[0], ast.Eq) else not eq), node)
+            if len(node.ops) == 1 and isinstance(node.ops[0], (ast.Is, ast.IsNot)) and isinstance(node.left, ast.Constant) and node.left.value is None \
+                    and isinstance(node.comparators[0], ast.Constant) and node.comparators[0].value is None:
+                return ast.copy_location(ast.Constant(value=isinstance(node.ops[0], ast.Is)), node)
             if len(node.ops) == 1 and isinstance(node.ops[0], (ast.Is, ast.IsNot)) and isinstance(node.left, ast.Name) and isinstance(node.comparators[0], ast.Name):
                 a, b = node.left.id, node.comparators[0].id
                 same = None
@@ -957,7 +1047,7 @@ def _apply_callable(kind, call_args: List[ast.expr], call_keywords: List[ast.key
     return None
 
 
-def _rewrite_functional(fn: ast.FunctionDef) -> int:
+def _rewrite_functional(fn: ast.FunctionDef, table_of=None) -> int:
     """map(f, xs) -> (f(x) for x in xs); functools.partial / operator.methodcaller objects applied (directly, through a local
     bound once, or as the function of map) -> the call they stand for.  Returns the number of rewrites."""
     # locals bound exactly once to a partial / methodcaller object and only ever called or handed to map()
@@ -1020,15 +1110,22 @@ def _rewrite_functional(fn: ast.FunctionDef) -> int:
         new = M().visit(new)
         return S1().visit(new)
 
+    def const_rows(it):
+        """the constants a display -- or a *new* module / class level constant table -- consists of"""
+        rows = list(it.elts) if isinstance(it, (ast.Tuple, ast.List)) else (table_of(it) if table_of is not None and isinstance(it, (ast.Name, ast.Attribute)) else None)
+        if rows is None or not (0 < len(rows) <= MAX_UNROLL and all(isinstance(e_, ast.Constant) for e_ in rows)):
+            return None
+        return rows
+
     def _const_comprehension(node):
         """[E for v in ("a", "b")] / {K: V for v in (...)} over at most MAX_UNROLL constants, no filter -> the display"""
         if not (isinstance(node, (ast.ListComp, ast.SetComp, ast.DictComp)) and len(node.generators) == 1):
             return None
         g_ = node.generators[0]
-        if g_.ifs or g_.is_async or not isinstance(g_.target, ast.Name) or not isinstance(g_.iter, (ast.Tuple, ast.List)):
+        rows_ = const_rows(g_.iter)
+        if g_.ifs or g_.is_async or not isinstance(g_.target, ast.Name) or rows_ is None:
             return None
-        if not (0 < len(g_.iter.elts) <= MAX_UNROLL and all(isinstance(e_, ast.Constant) for e_ in g_.iter.elts)):
-            return None
+        g_ = ast.comprehension(target=g_.target, iter=ast.Tuple(elts=rows_, ctx=ast.Load()), ifs=[], is_async=0)
         parts = [node.key, node.value] if isinstance(node, ast.DictComp) else [node.elt]
         if any(isinstance(x, ast.Name) and x.id == g_.target.id and isinstance(x.ctx, ast.Store) for p_ in parts for x in ast.walk(p_)):
             return None
@@ -1066,6 +1163,15 @@ def _rewrite_functional(fn: ast.FunctionDef) -> int:
                         kws.append(k)
                 node.keywords = kws
                 count[0] += 1
+            # dict(zip(("salt", "digest"), (a, b))): the display {"salt": a, "digest": b}
+            if isinstance(f, ast.Name) and f.id == "dict" and len(node.args) == 1 and not node.keywords and isinstance(node.args[0], ast.Call) \
+                    and isinstance(node.args[0].func, ast.Name) and node.args[0].func.id == "zip" and len(node.args[0].args) == 2 and not node.args[0].keywords:
+                ks_, vs_ = node.args[0].args
+                rows_ = const_rows(ks_)
+                if rows_ is not None and isinstance(vs_, (ast.Tuple, ast.List)) and len(vs_.elts) == len(rows_) \
+                        and not any(isinstance(e_, ast.Starred) for e_ in vs_.elts):
+                    count[0] += 1
+                    return ast.copy_location(ast.Dict(keys=[copy.deepcopy(k_) for k_ in rows_], values=list(vs_.elts)), node)
             # (lambda a: E)(x): the body with the argument put in
             if isinstance(f, ast.Lambda) and not node.keywords and not any(isinstance(a, ast.Starred) for a in node.args):
                 la = f.args
@@ -1826,6 +1932,19 @@ def _rewrite_dict_dispatch(fn: ast.FunctionDef, dict_of) -> bool:
             if isinstance(st, ast.Try):
                 for h in st.handlers:
                     visit(h.body)
+            # `x = TABLE.get(k) if cond else None`: the conditional assignment as the statement it abbreviates
+            if isinstance(st, (ast.Return, ast.Assign)) and isinstance(getattr(st, "value", None), ast.IfExp) and not (
+                    isinstance(st, ast.Assign) and not (len(st.targets) == 1 and isinstance(st.targets[0], ast.Name))) \
+                    and (lookup(st.value.body) is not None or lookup(st.value.orelse) is not None):
+                def arm(v, st=st):
+                    new_st = copy.deepcopy(st)
+                    new_st.value = copy.deepcopy(v)
+                    return ast.copy_location(new_st, st)
+                split = ast.copy_location(ast.If(test=copy.deepcopy(st.value.test), body=[arm(st.value.body)], orelse=[arm(st.value.orelse)]), st)
+                ast.fix_missing_locations(split)
+                body[i] = split
+                changed[0] = True
+                continue
             # the looked-up entry itself: `pair = TABLE[key]` / `return TABLE.get(key, default)`
             if isinstance(st, (ast.Return, ast.Assign)) and getattr(st, "value", None) is not None and not (
                     isinstance(st, ast.Assign) and not (len(st.targets) == 1 and isinstance(st.targets[0], ast.Name))):
@@ -1945,6 +2064,80 @@ def _flatten_closure_factories(modules: Dict[str, ast.Module], is_new) -> List[s
 
 
 # ---------------------------------------------------------------------------------------------------------- for over a generator expression
+class _CompCounter:
+    n = 0
+
+
+def _unfold_comprehensions(body: List[ast.stmt], wants) -> bool:
+    """`return {k: self._helper(f) for k, f in self._gen()}` cannot take a statement-level expansion of `_helper` / `_gen` where it
+    stands.  A list / dict / set comprehension that is the whole value of a return or of an assignment to a plain name, and that
+    contains a call `wants` (a new multi-statement helper, a new generator), is written as the loop it abbreviates:
+        __cmpN = {};  for k, f in self._gen(): __cmpN[k] = self._helper(f);  return __cmpN
+    The comprehension's own variables are renamed (they are not visible outside it in the original)."""
+    changed = False
+    i = 0
+    while i < len(body):
+        st = body[i]
+        for f_ in ("body", "orelse", "finalbody"):
+            sub = getattr(st, f_, None)
+            if isinstance(sub, list) and sub and isinstance(sub[0], ast.stmt) and not isinstance(st, (ast.FunctionDef, ast.AsyncFunctionDef, ast.ClassDef)):
+                if _unfold_comprehensions(sub, wants):
+                    changed = True
+        if isinstance(st, ast.Try):
+            for h in st.handlers:
+                if _unfold_comprehensions(h.body, wants):
+                    changed = True
+        comp = None
+        if isinstance(st, ast.Return) and isinstance(st.value, (ast.ListComp, ast.DictComp, ast.SetComp)):
+            comp = st.value
+        elif isinstance(st, ast.Assign) and len(st.targets) == 1 and isinstance(st.targets[0], ast.Name) \
+                and isinstance(st.value, (ast.ListComp, ast.DictComp, ast.SetComp)):
+            comp = st.value
+        if comp is None or any(g.is_async for g in comp.generators) or not any(isinstance(c, ast.Call) and wants(c) for c in ast.walk(comp)):
+            i += 1
+            continue
+        _CompCounter.n += 1
+        acc = "__cmp%d" % _CompCounter.n
+        bound = {n.id for g in comp.generators for n in ast.walk(g.target) if isinstance(n, ast.Name)}
+        mapping = {b: "%s_%s" % (acc, b) for b in bound}
+
+        class R(ast.NodeTransformer):
+            def visit_Name(self, node):
+                if node.id in mapping:
+                    return ast.copy_location(ast.Name(id=mapping[node.id], ctx=node.ctx), node)
+                return node
+        if isinstance(comp, ast.DictComp):
+            init: ast.expr = ast.Dict(keys=[], values=[])
+            leaf: ast.stmt = ast.Assign(targets=[ast.Subscript(value=ast.Name(id=acc, ctx=ast.Load()), slice=R().visit(copy.deepcopy(comp.key)), ctx=ast.Store())],
+                                        value=R().visit(copy.deepcopy(comp.value)))
+        elif isinstance(comp, ast.ListComp):
+            init = ast.List(elts=[], ctx=ast.Load())
+            leaf = ast.Expr(value=ast.Call(func=ast.Attribute(value=ast.Name(id=acc, ctx=ast.Load()), attr="append", ctx=ast.Load()),
+                                           args=[R().visit(copy.deepcopy(comp.elt))], keywords=[]))
+        else:
+            init = ast.Call(func=ast.Name(id="set", ctx=ast.Load()), args=[], keywords=[])
+            leaf = ast.Expr(value=ast.Call(func=ast.Attribute(value=ast.Name(id=acc, ctx=ast.Load()), attr="add", ctx=ast.Load()),
+                                           args=[R().visit(copy.deepcopy(comp.elt))], keywords=[]))
+        inner: List[ast.stmt] = [leaf]
+        for gi, g in reversed(list(enumerate(comp.generators))):
+            for cond in reversed(g.ifs):
+                inner = [ast.If(test=R().visit(copy.deepcopy(cond)), body=inner, orelse=[])]
+            it = copy.deepcopy(g.iter)
+            if gi > 0:
+                it = R().visit(it)          # the first iterable is evaluated outside the comprehension's scope
+            inner = [ast.For(target=R().visit(copy.deepcopy(g.target)), iter=it, body=inner, orelse=[])]
+        pre = [ast.Assign(targets=[ast.Name(id=acc, ctx=ast.Store())], value=init)] + inner
+        st.value = ast.Name(id=acc, ctx=ast.Load())
+        for x in pre:
+            ast.copy_location(x, st)
+            ast.fix_missing_locations(x)
+        ast.fix_missing_locations(st)
+        body[i:i] = pre
+        i += len(pre) + 1
+        changed = True
+    return changed
+
+
 def _fuse_generator_loops(fn: ast.FunctionDef) -> bool:
     """`for T in (E for a in X if c): BODY` (the generator given directly, or through a local bound once and used only there)
     is the nested loop `for a in X: if c: T = E; BODY` -- generator expressions are lazy, so the interleaving is the same."""
@@ -2007,15 +2200,303 @@ def _fuse_generator_loops(fn: ast.FunctionDef) -> bool:
     return changed[0]
 
 
+def _adopt_recursive_delegates(modules: Dict[str, ast.Module], is_new) -> List[str]:
+    """`def combine_trees(self, base, child): return merge_trees(base, child)` where `merge_trees` is a *new* recursive
+    module-level function that nothing else calls: the algorithm moved out of the method, the method only delegates.  The method
+    gets the function's body back, with the function's calls of itself written as `self.combine_trees(...)` (which, through the
+    delegation, is what they are) -- the rules anchored in the method read the algorithm where they expect it."""
+    log: List[str] = []
+    funcs: Dict[str, List[tuple]] = {}
+    for mn, m in modules.items():
+        for n in m.body:
+            if isinstance(n, ast.FunctionDef):
+                funcs.setdefault(n.name, []).append((mn, n))
+    for mn, m in modules.items():
+        for c in [n for n in m.body if isinstance(n, ast.ClassDef)]:
+            for meth in [n for n in c.body if isinstance(n, ast.FunctionDef)]:
+                body = [st for st in meth.body if not (isinstance(st, ast.Expr) and isinstance(st.value, ast.Constant) and isinstance(st.value.value, str))]
+                if len(body) != 1 or not isinstance(body[0], ast.Return) or not isinstance(body[0].value, ast.Call):
+                    continue
+                call = body[0].value
+                if not isinstance(call.func, ast.Name) or call.keywords or not is_new(call.func.id) or len(funcs.get(call.func.id, [])) != 1:
+                    continue
+                if meth.decorator_list or not meth.args.args:
+                    continue
+                fmn, f = funcs[call.func.id][0]
+                mparams = [a.arg for a in meth.args.args[1:]]
+                fparams = [a.arg for a in f.args.args]
+                if f.decorator_list or f.args.vararg or f.args.kwarg or f.args.kwonlyargs or f.args.defaults or meth.args.vararg or meth.args.kwarg:
+                    continue
+                if not (len(call.args) == len(fparams) == len(mparams) and all(isinstance(a, ast.Name) for a in call.args)
+                        and [a.id for a in call.args] == mparams):
+                    continue
+                self_calls = [x for x in ast.walk(f) if isinstance(x, ast.Call) and isinstance(x.func, ast.Name) and x.func.id == f.name]
+                if not self_calls or any(x.keywords or len(x.args) != len(fparams) for x in self_calls):
+                    continue
+                others = [x for m2 in modules.values() for x in ast.walk(m2) if isinstance(x, ast.Name) and x.id == f.name and isinstance(x.ctx, ast.Load)]
+                if len(others) != len(self_calls) + 1:
+                    continue            # somebody else calls (or passes around) the function
+                if _has(f, (ast.Yield, ast.YieldFrom, ast.Await, ast.Global, ast.Nonlocal)) or any(
+                        isinstance(x, (ast.FunctionDef, ast.Lambda)) and x is not f for x in ast.walk(f)):
+                    continue
+                sname = meth.args.args[0].arg
+                local_f = _assigned_names(f) | set(fparams)
+                if sname in local_f:
+                    continue
+                ren = dict(zip(fparams, mparams))
+                new_body = [copy.deepcopy(st) for st in f.body
+                            if not (isinstance(st, ast.Expr) and isinstance(st.value, ast.Constant) and isinstance(st.value.value, str))]
+
+                class R(ast.NodeTransformer):
+                    def visit_Name(self, node):
+                        if node.id in ren:
+                            return ast.copy_location(ast.Name(id=ren[node.id], ctx=node.ctx), node)
+                        return node
+
+                    def visit_Call(self, node):
+                        self.generic_visit(node)
+                        if isinstance(node.func, ast.Name) and node.func.id == f.name:
+                            node.func = ast.copy_location(ast.Attribute(value=ast.Name(id=sname, ctx=ast.Load()), attr=meth.name, ctx=ast.Load()), node.func)
+                        return node
+                # a parameter name of the method that the function uses for something else would be captured
+                if (set(mparams) - set(ren.values())) or (set(mparams) & (local_f - set(fparams))):
+                    continue
+                doc = [st for st in meth.body if st not in body]
+                meth.body = doc + [R().visit(st) for st in new_body]
+                ast.fix_missing_locations(meth)
+                modules[fmn].body.remove(f)
+                log.append("%s.%s: the recursive function %s it delegated to is written back into it" % (c.name, meth.name, f.name))
+    return log
+
+
+def _import_foreign_globals(modules: Dict[str, ast.Module]) -> List[str]:
+    """Code expanded where it is called (or copied down from a new base class) may come from another module of the package
+    and read that module's globals (`os`, `base64`, a constant, another helper).  Every such name that the receiving module does
+    not bind is imported there from the module that provides it, so that name resolution reads the moved code as it read it at
+    home.  Only names no function of the module binds locally and the module does not bind at all are touched."""
+    import builtins
+    log: List[str] = []
+    is_pkg = {mn: any(o.startswith(mn + ".") for o in modules) for mn in modules}
+
+    def top_bindings(tree):
+        defs, imps = set(), {}
+        for n in tree.body:
+            if isinstance(n, (ast.FunctionDef, ast.AsyncFunctionDef, ast.ClassDef)):
+                defs.add(n.name)
+            elif isinstance(n, (ast.Assign, ast.AnnAssign)):
+                for t in (n.targets if isinstance(n, ast.Assign) else [n.target]):
+                    for x in ast.walk(t):
+                        if isinstance(x, ast.Name):
+                            defs.add(x.id)
+        for n in ast.walk(tree):
+            if isinstance(n, ast.Import):
+                for a in n.names:
+                    imps[a.asname or a.name.split(".")[0]] = ("import", a.name, a.asname)
+            elif isinstance(n, ast.ImportFrom):
+                for a in n.names:
+                    imps[a.asname or a.name] = ("from", n, a)
+        return defs, imps
+    info = {mn: top_bindings(t) for mn, t in modules.items()}
+
+    def absolute(mn, node: ast.ImportFrom) -> str:
+        if not node.level:
+            return node.module or ""
+        base = mn.split(".")
+        if not is_pkg[mn]:
+            base = base[:-1]
+        if node.level > 1:
+            base = base[: len(base) - (node.level - 1)]
+        return ".".join(base + ([node.module] if node.module else []))
+
+    for mn, tree in modules.items():
+        defs, imps = info[mn]
+        bound_any = set()
+        for n in ast.walk(tree):
+            if isinstance(n, ast.Name) and isinstance(n.ctx, (ast.Store, ast.Del)):
+                bound_any.add(n.id)
+            elif isinstance(n, ast.arg):
+                bound_any.add(n.arg)
+            elif isinstance(n, ast.ExceptHandler) and n.name:
+                bound_any.add(n.name)
+            elif isinstance(n, (ast.FunctionDef, ast.AsyncFunctionDef, ast.ClassDef)):
+                bound_any.add(n.name)
+        missing = set()
+        for n in ast.walk(tree):
+            if isinstance(n, ast.Name) and isinstance(n.ctx, ast.Load) and n.id not in defs and n.id not in imps and n.id not in bound_any \
+                    and not hasattr(builtins, n.id) and not n.id.startswith("__"):
+                missing.add(n.id)
+        new_imports: List[ast.stmt] = []
+        for nm in sorted(missing):
+            provider = [o for o in modules if o != mn and nm in info[o][0]]
+            if len(provider) == 1:
+                new_imports.append(ast.ImportFrom(module=provider[0], names=[ast.alias(name=nm, asname=None)], level=0))
+                log.append("%s: %s imported from %s (read by code that moved here)" % (mn, nm, provider[0]))
+                continue
+            via = [o for o in modules if o != mn and nm in info[o][1]]
+            if via:
+                kind = info[via[0]][1][nm]
+                if kind[0] == "import":
+                    new_imports.append(ast.Import(names=[ast.alias(name=kind[1], asname=kind[2])]))
+                else:
+                    new_imports.append(ast.ImportFrom(module=absolute(via[0], kind[1]), names=[ast.alias(name=kind[2].name, asname=kind[2].asname)], level=0))
+                log.append("%s: %s imported as in %s (read by code that moved here)" % (mn, nm, via[0]))
+        for st in new_imports:
+            st.lineno = st.end_lineno = 1
+            st.col_offset = st.end_col_offset = 0
+            ast.fix_missing_locations(st)
+        tree.body[0:0] = new_imports
+    return log
+
+
+def _push_down_new_bases(modules: Dict[str, ast.Module]) -> List[str]:
+    """A refactoring that moves code shared by sibling classes into a *new* base class or mixin (template method, hooks, class
+    attributes as parameters) leaves the known classes without the methods the rules are anchored in.  Inheriting a method is
+    the same as defining a copy of it: every method a known class inherits from a new class of the package is copied into the
+    known class (zero-argument `super()` in the copy becomes `super(<the new base>, self)`, which means the same thing there).
+    Hooks called on self in the copy then resolve against the known class, where the usual inlining writes them out."""
+    from .known_names import KNOWN_CLASSES
+    log: List[str] = []
+    class_defs: Dict[str, ast.ClassDef] = {}
+    for m in modules.values():
+        for n in m.body:
+            if isinstance(n, ast.ClassDef):
+                class_defs[n.name] = n
+
+    def bases_of(c: ast.ClassDef) -> List[str]:
+        out = []
+        for b in c.bases:
+            nm = b.id if isinstance(b, ast.Name) else (b.attr if isinstance(b, ast.Attribute) else None)
+            if nm in class_defs:
+                out.append(nm)
+        return out
+
+    def mro(cn: str, _depth=0) -> List[str]:
+        # C3 over the package's own classes (foreign bases have no methods the rules look at)
+        if _depth > 20:
+            return [cn]
+        seqs = [mro(b, _depth + 1) for b in bases_of(class_defs[cn])] + [list(bases_of(class_defs[cn]))]
+        out = [cn]
+        seqs = [list(x) for x in seqs if x]
+        while seqs:
+            for sq in seqs:
+                cand = sq[0]
+                if not any(cand in other[1:] for other in seqs):
+                    break
+            else:
+                return out + [x for sq in seqs for x in sq if x not in out]       # inconsistent hierarchy: give up on order
+            out.append(cand)
+            seqs = [[x for x in sq if x != cand] for sq in seqs]
+            seqs = [sq for sq in seqs if sq]
+        return out
+
+    new_bases = {bn for cn in class_defs for bn in mro(cn)[1:] if bn not in KNOWN_CLASSES}
+    copied: Dict[str, Dict[str, Set[str]]] = {}      # new base -> method -> classes that received a copy
+    for cn, c in class_defs.items():
+        if cn not in KNOWN_CLASSES and not (set(mro(cn)[1:]) & new_bases):
+            continue
+        order = mro(cn)
+        own = {n.name for n in c.body if isinstance(n, (ast.FunctionDef, ast.AsyncFunctionDef))}
+        own_attrs = {t.id for n in c.body if isinstance(n, (ast.Assign, ast.AnnAssign)) for t in (n.targets if isinstance(n, ast.Assign) else [n.target])
+                     if isinstance(t, ast.Name)}
+        for bn in order[1:]:
+            b = class_defs[bn]
+            if bn in KNOWN_CLASSES:
+                # a known class further up defines it: what it defines shadows everything behind it
+                own |= {n.name for n in b.body if isinstance(n, (ast.FunctionDef, ast.AsyncFunctionDef))}
+                continue
+            for n in b.body:
+                if isinstance(n, ast.FunctionDef) and n.name not in own and n.args.args:
+                    decos = [ast.unparse(d) for d in n.decorator_list]
+                    if decos and decos != ["property"]:
+                        continue
+                    cp = copy.deepcopy(n)
+                    sname = cp.args.args[0].arg
+                    for x in ast.walk(cp):
+                        if isinstance(x, ast.Call) and isinstance(x.func, ast.Name) and x.func.id == "super" and not x.args and not x.keywords:
+                            x.args = [ast.Name(id=bn, ctx=ast.Load()), ast.Name(id=sname, ctx=ast.Load())]
+                    ast.fix_missing_locations(cp)
+                    cp._pushed_from = bn  # type: ignore
+                    c.body.append(cp)
+                    own.add(n.name)
+                    copied.setdefault(bn, {}).setdefault(n.name, set()).add(cn)
+                    log.append("%s.%s: copied from the new base class %s" % (cn, n.name, bn))
+    # a new base class that the package never instantiates and that has subclasses is abstract: a method of it that every
+    # subclass now defines itself (or gets from a class in between) and that nothing reaches through super() / by naming
+    # the class is dead there -- analysing it on its own would judge hooks no object ever runs
+    instantiated = {x.func.id for m in modules.values() for x in ast.walk(m) if isinstance(x, ast.Call) and isinstance(x.func, ast.Name)}
+    for bn in sorted(new_bases):
+        b = class_defs[bn]
+        subs = [cn for cn in class_defs if cn != bn and bn in mro(cn)]
+        if bn in instantiated or not subs:
+            continue
+        for n in list(b.body):
+            if not isinstance(n, ast.FunctionDef):
+                continue
+            nm = n.name
+            if nm.startswith("__") and nm.endswith("__") and nm in ("__init__", "__new__", "__init_subclass__"):
+                continue
+            # every subclass resolves nm to something other than b's definition
+            def resolves_elsewhere(cn):
+                for k in mro(cn):
+                    if k == bn:
+                        return False
+                    if any(isinstance(x, ast.FunctionDef) and x.name == nm for x in class_defs[k].body):
+                        return True
+                return True
+            if not all(resolves_elsewhere(cn) for cn in subs):
+                continue
+            reached = False
+            for kn, k in class_defs.items():
+                for x in ast.walk(k):
+                    if isinstance(x, ast.Attribute) and x.attr == nm:
+                        v = x.value
+                        if isinstance(v, ast.Call) and isinstance(v.func, ast.Name) and v.func.id == "super" and bn in mro(kn)[1:]:
+                            # super().nm inside a subclass of b; super(K, self).nm written by the copy step looks behind K
+                            if not (len(v.args) == 2 and isinstance(v.args[0], ast.Name) and v.args[0].id in class_defs
+                                    and (v.args[0].id == bn or bn not in mro(v.args[0].id))):
+                                reached = True
+            for m in modules.values():
+                for x in ast.walk(m):
+                    if isinstance(x, ast.Attribute) and x.attr == nm and isinstance(x.value, ast.Name) and x.value.id == bn:
+                        reached = True
+            # (the rewritten super(bn, self) in the copies looks *behind* bn: it does not reach bn's own definition)
+            if reached:
+                continue
+            b.body.remove(n)
+            log.append("%s.%s: dropped from the abstract new base (every subclass has its own copy)" % (bn, nm))
+        if not b.body:
+            b.body.append(ast.Pass())
+    return log
+
+
 def normalize_module_trees(modules: Dict[str, ast.Module]) -> List[str]:
     """Inline single-caller private helpers / closures in place. Returns a log of what was inlined."""
     log: List[str] = []
+    _ORIG_SIZE.clear()
+    _INLINED_DEFS.clear()
+    log += _push_down_new_bases(modules)
+    from .known_names import KNOWN_NAMES as _KN
+    log += _adopt_recursive_delegates(modules, lambda nm: nm not in _KN)
+    for m in modules.values():
+        for n in ast.walk(m):
+            if isinstance(n, (ast.FunctionDef, ast.AsyncFunctionDef)):
+                _ORIG_SIZE[id(n)] = sum(1 for _ in ast.walk(n) if isinstance(_, ast.stmt))
     # ---- index definitions
     class_defs: Dict[str, ast.ClassDef] = {}
     for m in modules.values():
         for n in m.body:
             if isinstance(n, ast.ClassDef):
                 class_defs[n.name] = n
+    property_owner: Dict[str, List[str]] = {}
+    stored_attrs: Set[str] = set()
+    for m in modules.values():
+        for n in ast.walk(m):
+            if isinstance(n, ast.Attribute) and isinstance(n.ctx, (ast.Store, ast.Del)):
+                stored_attrs.add(n.attr)
+    for cn, c in class_defs.items():
+        for n in c.body:
+            if isinstance(n, ast.FunctionDef) and [ast.unparse(d_) for d_ in n.decorator_list] == ["property"]:
+                property_owner.setdefault(n.name, []).append(cn)
     method_owner: Dict[str, List[str]] = {}
     for cn, c in class_defs.items():
         for n in c.body:
@@ -2049,6 +2530,21 @@ def normalize_module_trees(modules: Dict[str, ast.Module]) -> List[str]:
             if bn == base or (bn and derives(bn, base, _seen)):
                 return True
         return False
+
+    def moved_global(name: str, here: str, there: str) -> bool:
+        """a module-level constant read by code that was expanded in module *here* but lives in *there*: *here* binds no such name
+        and *there* is the only module of the package that does"""
+        def binds(mod):
+            for n in modules[mod].body:
+                if isinstance(n, (ast.Assign, ast.AnnAssign)) and any(isinstance(t, ast.Name) and t.id == name
+                                                                      for t in (n.targets if isinstance(n, ast.Assign) else [n.target])):
+                    return True
+                if isinstance(n, (ast.FunctionDef, ast.ClassDef)) and n.name == name:
+                    return True
+            return False
+        if name in module_imports.get(here, ()) or binds(here):
+            return False
+        return [m_ for m_ in modules if binds(m_)] == [there]
 
     def private(name: str) -> bool:
         """candidate for inlining: a private helper that is no rule anchor, or any function (public too) whose name did not
@@ -2132,6 +2628,24 @@ def normalize_module_trees(modules: Dict[str, ast.Module]) -> List[str]:
                                 if d and _inlinable_def(d[0]) and not _calls(d[0], nm):
                                     return d[0], False, None
                             return None
+                        if isinstance(f, ast.Attribute) and isinstance(f.value, ast.Name) and f.value.id in class_defs and f.value.id != self_name:
+                            # a new helper method called through its class: Config._link_child(parent, child, ...) -- every
+                            # parameter, the receiver included, is bound from the arguments
+                            nm = f.attr
+                            if not private(nm) or nm in non_call_refs:
+                                return None
+                            d = None
+                            for kname in [f.value.id] + [o for o in (method_owner.get(nm) or []) if derives(f.value.id, o)]:
+                                dd = [n for n in class_defs[kname].body if isinstance(n, ast.FunctionDef) and n.name == nm]
+                                if dd:
+                                    d = dd
+                                    break
+                            if not d or d[0] is fn or not _inlinable_def(d[0]) or _calls(d[0], nm):
+                                return None
+                            decos = [ast.unparse(x) for x in d[0].decorator_list]
+                            if "classmethod" in decos or "property" in decos:
+                                return None
+                            return d[0], False, None
                         if isinstance(f, ast.Attribute) and _plain_chain(f.value) and not (
                                 isinstance(f.value, ast.Name) and self_name and f.value.id == self_name and cls is not None):
                             # a new helper method called on another object (field._env_lookup()): unique definition in the package
@@ -2257,7 +2771,7 @@ def normalize_module_trees(modules: Dict[str, ast.Module]) -> List[str]:
                                 disp = local[0].value
                             elif not stores and it.id not in [a.arg for a in fn.args.args + fn.args.kwonlyargs]:
                                 for m2n, m2 in modules.items():
-                                    if m2n != mn and it.id not in module_imports.get(mn, ()):
+                                    if m2n != mn and it.id not in module_imports.get(mn, ()) and not moved_global(it.id, mn, m2n):
                                         continue
                                     for n in m2.body:
                                         if isinstance(n, (ast.Assign, ast.AnnAssign)) and n.value is not None and any(
@@ -2288,7 +2802,7 @@ def normalize_module_trees(modules: Dict[str, ast.Module]) -> List[str]:
                                 disp = local[0].value
                             elif not stores_ and e.id not in [a.arg for a in fn.args.args + fn.args.kwonlyargs] and e.id not in KNOWN_TABLES:
                                 for m2n, m2 in modules.items():
-                                    if m2n != mn and e.id not in module_imports.get(mn, ()):
+                                    if m2n != mn and e.id not in module_imports.get(mn, ()) and not moved_global(e.id, mn, m2n):
                                         continue
                                     for n in m2.body:
                                         if isinstance(n, (ast.Assign, ast.AnnAssign)) and n.value is not None and isinstance(n.value, ast.Dict) and any(
@@ -2303,9 +2817,23 @@ def normalize_module_trees(modules: Dict[str, ast.Module]) -> List[str]:
                         if disp is None or not disp.keys or len(disp.keys) > MAX_UNROLL or any(k is None or not isinstance(k, ast.Constant) for k in disp.keys):
                             return None
                         return list(zip(disp.keys, disp.values))
+                    nf2 = _rewrite_functional(fn, table_of)
+                    if nf2:
+                        any_change = True
+                        log.append("%s.%s: %d idiom(s) over a new constant table spelled out" % (cls.name if cls else mn, fn.name, nf2))
+                        ast.fix_missing_locations(fn)
                     if _rewrite_dict_dispatch(fn, dict_of):
                         any_change = True
                         log.append("%s.%s: dispatch through a constant dict written out" % (cls.name if cls else mn, fn.name))
+                        ast.fix_missing_locations(fn)
+                    def wants_stmt(call, resolve=resolve, find_gen=find_gen):
+                        r_ = resolve(call)
+                        if r_ is not None and _single_return_expr(r_[0]) is None:
+                            return True
+                        return find_gen(call) is not None
+                    if _unfold_comprehensions(fn.body, wants_stmt):
+                        any_change = True
+                        log.append("%s.%s: comprehension over a new helper / generator written as a loop" % (cls.name if cls else mn, fn.name))
                         ast.fix_missing_locations(fn)
                     if _fuse_generator_loops(fn):
                         any_change = True
@@ -2329,8 +2857,30 @@ def normalize_module_trees(modules: Dict[str, ast.Module]) -> List[str]:
                         log.append("%s.%s: expanded new context manager(s)" % (cls.name if cls else mn, fn.name))
                         ast.fix_missing_locations(fn)
 
+                    def resolve_prop(attr_node, fn=fn, cls=cls, self_name=self_name):
+                        nm = attr_node.attr
+                        if not private(nm) or nm in module_funcs:
+                            return None
+                        owners = property_owner.get(nm) or []
+                        if len(owners) != 1 or (method_owner.get(nm) or []) != owners:
+                            return None
+                        # no assignment to an attribute of that name anywhere (a property without setter is never stored to)
+                        if nm in stored_attrs:
+                            return None
+                        d = [n for n in class_defs[owners[0]].body if isinstance(n, ast.FunctionDef) and n.name == nm]
+                        if len(d) != 1 or d[0] is fn or any(isinstance(x, ast.Attribute) and x.attr == nm for x in ast.walk(d[0])):
+                            return None
+                        return d[0]
+                    pi = _PropertyInliner(resolve_prop)
+                    for st in fn.body:
+                        if not isinstance(st, (ast.FunctionDef, ast.AsyncFunctionDef)):
+                            pi.visit(st)
+                    if pi.count:
+                        any_change = True
+                        log.append("%s.%s: %d read(s) of a new single-expression property written out" % (cls.name if cls else mn, fn.name, pi.count))
+                        ast.fix_missing_locations(fn)
                     before = _Counter.n
-                    ei = _ExprInliner(resolve)
+                    ei = _ExprInliner(resolve, find_gen)
                     for st in fn.body:
                         if not (isinstance(st, (ast.FunctionDef, ast.AsyncFunctionDef)) and st.name in closures):
                             ei.visit(st)
@@ -2358,7 +2908,8 @@ def normalize_module_trees(modules: Dict[str, ast.Module]) -> List[str]:
             for st in list(body):
                 if isinstance(st, (ast.FunctionDef, ast.AsyncFunctionDef)):
                     cand = is_closure_scope or private(st.name)
-                    if cand and st.name not in referenced and st.name not in KEEP and _inlinable_def(st):
+                    # (a definition that was expanded earlier may have outgrown the size limit through its own inlined calls)
+                    if cand and st.name not in referenced and st.name not in KEEP and (_inlinable_def(st) or id(st) in _INLINED_DEFS):
                         body.remove(st)
                         log.append("removed fully inlined definition %s" % st.name)
                         continue
@@ -2367,6 +2918,7 @@ def normalize_module_trees(modules: Dict[str, ast.Module]) -> List[str]:
                     prune(st.body, False)
         for m in modules.values():
             prune(m.body, False)
+        log += _import_foreign_globals(modules)
     return log
 
 
